@@ -1082,4 +1082,67 @@ example :
   refine ⟨demo_retried, ?_⟩
   decide +kernel
 
+/-! ## 7. a failed attempt is never reported as success (whatever the exception object is) -/
+
+theorem raiseNew_ne_ok (s s' : St) (n m : String) : raiseNew s n m ≠ (s', .ok) := by
+  unfold raiseNew; intro h; injection h with _ h2; cases h2
+
+theorem raiseExc_ne_ok (s s' : St) (x : Exc) : raiseExc s x ≠ (s', .ok) := by
+  unfold raiseExc; exact raiseNew_ne_ok _ _ _ _
+
+/-- **Success of the retry loop is the success of one of its attempts.** Whenever `poll.while_until_true`
+    around `exec_iteration` ends normally, an attempt `k'` (not before the current one) ended normally and the
+    loop's final state is that attempt's final state: an attempt that raised - whatever the exception object,
+    its class, its truth value, what it was raised from - is never taken for "the step completed"; the only
+    ways out of the loop after a failed attempt are that attempt's error, a later attempt, or a fault of the loop
+    itself (filters, negative sleep, the assert). For every per-attempt behaviour, `max`, filters, back-off, fuel. -/
+theorem retry_ok_only_from_ok_attempt (cfg : RetryCfg) (fr : Frame) (inner : Frame → Body) (max : Option Int)
+    (fuel : Nat) : ∀ (k : Nat) (bo : BackoffState) (s s' : St),
+    retryIter cfg fr inner max fuel k bo s = (s', .ok) →
+    ∃ k' s0, k ≤ k' ∧ inner { fr with retryC := some k' } s0 = (s', .ok) ∧
+      Ctx.get? s0.ctx "retryCounter" = some (.int k') := by
+  induction fuel with
+  | zero => intro k bo s s' h; unfold retryIter at h; injection h with _ h2; cases h2
+  | succ n ih =>
+    intro k bo s s' h
+    unfold retryIter at h
+    cases hin : inner { fr with retryC := some k } { s with ctx := Ctx.set s.ctx "retryCounter" (.int k) } with
+    | mk s1 r =>
+    simp only [hin] at h
+    cases r with
+    | err e handled =>
+      simp only [] at h
+      repeat' split at h
+      all_goals first
+        | exact absurd h (raiseNew_ne_ok _ _ _ _)
+        | exact absurd h (raiseExc_ne_ok _ _ _)
+        | (simp at h)
+        | (obtain ⟨k', s0, hk, hi, hc⟩ := ih _ _ _ _ h; exact ⟨k', s0, by omega, hi, hc⟩)
+    | ok =>
+      simp only [] at h
+      injection h with h1 _
+      subst h1
+      exact ⟨k, _, Nat.le_refl k, hin, ctx_get_set_self _ _ _⟩
+    | _ => simp only [] at h; injection h with _ h2; cases h2
+
+/-- … hence: a body that fails on every attempt never makes the retry loop report success - the error is not
+    dropped, the enclosing foreach / while do not carry on (`C05.unswallowed_error_ends_all_loops`). -/
+theorem retry_never_ok_when_every_attempt_fails (cfg : RetryCfg) (fr : Frame) (inner : Frame → Body)
+    (max : Option Int) (fuel k : Nat) (bo : BackoffState) (s s' : St)
+    (hfail : ∀ fr' s0 s1, inner fr' s0 ≠ (s1, .ok)) :
+    retryIter cfg fr inner max fuel k bo s ≠ (s', .ok) := by
+  intro h
+  obtain ⟨k', s0, _, hi, _⟩ := retry_ok_only_from_ok_attempt cfg fr inner max fuel k bo s s' h
+  exact hfail _ _ _ hi
+
+/-- non-vacuity: `demoInner` under `max: 5` ends normally - in the state of its third attempt. -/
+example : (retryIter {} {} demoInner (some 5) 10 1 (mkBackoff .fixed (Num.ofNat 0) none none (Num.ofNat 0) (Num.ofNat 2)) {}).2 = .ok := by
+  decide +kernel
+
+/-- non-vacuity of the second: a body that always raises; four attempts, then its error. -/
+example : (retryIter {} {} (fun _ s => raiseNew s "vprobe.FalsyError" "boom") (some 4) 10 1
+    (mkBackoff .fixed (Num.ofNat 0) none none (Num.ofNat 0) (Num.ofNat 2)) {}).2 = .err ⟨3, "vprobe.FalsyError", "boom"⟩ false := by
+  decide +kernel
+
+
 end Pypyr.C06
